@@ -24,11 +24,13 @@
      real chain by the harness); the model decides only WHERE it goes.
    * a transaction that returns an error leaves no trace (cache branch discarded): [Err].
      A Go panic in the end blocker is [Panic] (the block is not committed).
-   * oracle sets are created by the end blocker (rules 1 and 2 of isNeedOracleSetRequest are
-     modelled; rule 3, the float power-diff, is the input bit [pd]); batches and outgoing bridge
-     calls are created / removed by ops [AddBatch]/[DelBatch]/[AddCall]/[DelCall] (their
-     real construction and resolution belong to other properties); pruneOracleSet is not modelled (it only deletes sets the slash cursor has
-     already passed, and needs an observed oracle-set claim). *)
+   * oracle sets are created by the end blocker: GetCurrentOracleSet's members and the request rule
+     (no latest set / slash in this block / float power difference >= OracleSetUpdatePowerChangePercent) are
+     computed, the float part by model.M_OsetPhase.need_request (bit-exact, property C07); pruneOracleSet is
+     modelled; an observed OracleSetUpdatedClaim is the op [ObserveSet].  Batches come from the real
+     SendToExternal / RequestBatch path and leave by an observed SendToExternalClaim ([AddBatch]/[ExecBatch]);
+     outgoing bridge calls are created / removed by ops [AddCall]/[DelCall] (their real construction and
+     resolution belong to other properties). *)
 From Coq Require Import ZArith List Bool.
 From FxV Require Import gen.Gen_OracleSlash.
 From FxV Require model.M_EndBlock model.M_OsetPhase.
